@@ -1,13 +1,15 @@
 """C39 - dependency-graph slices are faithful to the program.
 
 Engine E2 over the loop-free part of the irgen lattice (every acyclic CFG shape with <= N blocks; bodies of <= L
-assignments from an ordered alphabet over registers and two stack cells; branch conditions on a register, a flag,
-a comparison and a stack cell).  For every graph, every block, every line of the block (the IRDst line included),
+assignments from an ordered alphabet over registers, two stack cells and a read through a register pointer; branch
+conditions on a register, a flag, a comparison and a stack cell).  For every graph, every block, every line of the block (the IRDst line included),
 every target element of {a, b, r, @[sp+4]} the real
 
     DependencyGraph(ircfg, implicit=False / True).get(block, {element}, line, {head})
 
-is called and EVERY returned solution is judged.
+is called and EVERY returned solution is judged.  (get() keeps its pending states in a set of objects hashed by
+identity, so which of several equivalent states is expanded first is unspecified: the set's pop() is made deterministic
+and graphs with a join are run in both extreme orders.)
 
 Values (both modes).  `history` (target block first) gives the block sequence P.  The reference value of the element
 is obtained by executing the FULL blocks of P in order (the target block up to, not including, the target line) with
@@ -49,8 +51,10 @@ LEVEL_NOTE = ("Trusted: mc/irinterp.py + mc/refsem.py, mc/irgen.py, the ~40 line
               "block sequence. depgraph.py's names `Translator` and `z3` are wrapped during emul() to record the constraint tree "
               "(observation only; the z3 terms and the solver are the real ones). Memory is tracked syntactically by the analysis "
               "(its documented design), so the alphabet keeps the stack pointer constant, writes memory only through the two "
-              "disjoint cells @32[sp+4], @32[sp+8] and reads it through them or through @32[a] (pointer dependency, never an alias); follow_mem / follow_call are left at their defaults (True); lifted x86 graphs "
-              "are not part of this check (the stack pointer moves in them).")
+              "disjoint cells @32[sp+4], @32[sp+8] and reads it through them or through @32[a] (pointer dependency, never an alias): "
+              "with a moving stack pointer or overlapping partial writes the slices are not faithful by design; follow_mem / "
+              "follow_call are left at their defaults (True); lifted x86 graphs are not part of this check (the stack pointer "
+              "moves in them).")
 TECHNIQUE = "bounded-exhaustive enumeration of acyclic IR graphs; reference-interpreter differential of slice vs full blocks and of path constraints vs concrete path"
 ASSUMPTIONS = ["the stack pointer is not written; memory is only written through the disjoint cells @32[sp+4] and @32[sp+8] and only read "
                "through them or through @32[a], which never aliases them in the state lattice (DependencyGraph tracks memory expressions "
@@ -64,7 +68,6 @@ ALPHA_14 = ["a=b", "b=a", "a=a+1", "b=1", "c=a+b", "a=c", "swap", "a=b,c=a", "r=
             "@[sp+4]=b", "b=@[a]"]
 ALPHA_10 = ["a=b", "a=a+1", "b=1", "swap", "r=a", "zf=a==b", "a=@[sp+4]", "@[sp+4]=a", "@[sp+4]=b", "b=@[sp+8]"]
 ALPHA_7 = ["a=b", "a=a+1", "b=1", "swap", "r=a", "a=@[sp+4]", "@[sp+4]=b"]
-ALPHA_6 = ["a=b", "a=a+1", "swap", "r=a", "a=@[sp+4]", "@[sp+4]=b"]
 ALPHA_5 = ["a=b", "swap", "r=a", "a=@[sp+4]", "@[sp+4]=b"]
 ALPHA_4 = ["a=b", "swap", "a=@[sp+4]", "@[sp+4]=b"]
 ALPHA_3 = ["a=b", "swap", "@[sp+4]=a"]
@@ -73,10 +76,8 @@ IMPL_6 = ["a=b", "a=0", "a=a+1", "zf=a==b", "@[sp+4]=a", "a=@[sp+4]"]
 IMPL_4 = ["a=b", "a=0", "zf=a==b", "@[sp+4]=a"]
 IMPL_3 = ["a=0", "zf=a==b", "@[sp+4]=a"]
 IMPL_2 = ["a=b", "zf=a==b"]
-IMPL_2M = ["a=0", "@[sp+4]=a"]
 CONDS_ALL = ["a", "zf", "a==b", "a<u2", "@[sp+4]"]
 CONDS_4 = ["a", "zf", "a<u2", "@[sp+4]"]
-CONDS_3 = ["a", "zf", "@[sp+4]"]
 CONDS_ONE = ["a"]
 
 # (mode, N, L, alphabet, conds); explicit mode does not look at branch conditions: one condition
@@ -102,7 +103,6 @@ PLAN_T = [
     ("implicit", 3, 1, IMPL_6, ["a", "@[sp+4]"]),
     ("implicit", 3, 2, IMPL_2, ["zf"]),
     ("implicit", 4, 1, IMPL_2, ["zf"]),
-    ("implicit", 4, 1, IMPL_2M, ["@[sp+4]"]),
 ]
 
 VALS = [0, 1, 2, 0xFFFFFFFF]
@@ -406,7 +406,7 @@ def check_graph(mode, n, shape_idx, body_idx, cond_idx, alphabet, conds, only=No
             "constraint_sets_judged": 0, "constraint_sets_repeated": 0}
     used_ids, uses_mem = graph_reads(g.ircfg)
     uses_zf = A.zf in used_ids
-    sts = states(A, used_ids, uses_mem or True, uses_zf)
+    sts = states(A, used_ids, True, uses_zf)      # the target @[sp+4] always reads memory
     idx_of = {l: i for i, l in enumerate(g.locs)}
     vs = []
     sigs_seen = set()
